@@ -114,7 +114,8 @@ def cases(tier, seed):
                     out.append({"key": f"{st}/n={n}/c={c:g}/rhs={rhs}", "cls": st, "n": n, "scale": c, "rhs": rhs})
     # near-invariant Krylov spaces: b = eigenvector of a small eigenvalue + perturbation just below a tolerance
     for n in (2, 3, 4):
-        for di, delta in enumerate((5e-3, 5e-7, 5e-11)):
+        # ... and a sweep 2^-30 .. 2^-52 through the rounding-level window in which the breakdown test has to separate a small genuine direction from noise
+        for di, delta in enumerate((5e-3, 5e-7, 5e-11) + tuple(2.0 ** -k for k in range(30, 54, 2))):
             for kind in ("id", "hh"):
                 out.append({"key": f"neareig/n={n}/d={di}/{kind}", "cls": "neareig", "n": n, "scale": 1.0, "delta": delta, "kind": kind})
     # mid-cycle lucky breakdown: the restart residual after cycle 1 is an exact eigenvector, so cycle 2 breaks
@@ -154,7 +155,121 @@ def cases(tier, seed):
         for nm in xf_names(n, n):
             for rhs in ("generic", "e0"):
                 out.append({"key": f"xf/n={n}/{nm}/rhs={rhs}", "cls": "xf", "n": n, "scale": 1.0, "xf": nm, "rhs": rhs})
+    # small-integer systems, exhaustively: every nonsingular n x n matrix with entries from a small alphabet x a set of right-hand sides.
+    # Exact data make exact and rounding-level invariances of the Krylov space the rule, not the exception (the restart residual of a
+    # cycle is an eigenvector, A^2 r is a combination of r and A r, ...): the Arnoldi remainder is then 0 or a few ulps, decided by the data.
+    # One case = one block of the enumeration (fixed leading entries).
+    for ai, alpha in enumerate(SMALLINT_ALPHABETS):
+        if alpha["tier"] == "thorough" and tier != "thorough":
+            continue
+        n, k, lead = alpha["n"], len(alpha["vals"]), alpha["lead"]
+        for blk in itertools.product(range(k), repeat=lead):
+            out.append({"key": f"smallint/a={ai}/n={n}/lead={''.join(map(str, blk))}", "cls": "smallint", "n": n, "scale": 1.0, "alpha": ai, "blk": list(blk)})
     return out
+
+
+Q1, QI, QJ, QK = (1.0, 0, 0, 0), (0, 1.0, 0, 0), (0, 0, 1.0, 0), (0, 0, 0, 1.0)
+
+
+def _q(r):
+    return (float(r), 0.0, 0.0, 0.0)
+
+
+SMALLINT_ALPHABETS = [
+    # real 2 x 2, entries -2..2, every non-zero right-hand side over the same alphabet
+    {"tier": "quick", "n": 2, "vals": [_q(v) for v in (-2, -1, 0, 1, 2)], "lead": 2, "rhs": "all"},
+    # quaternion 2 x 2, entries {0, 1, -1, i, j, k}
+    {"tier": "quick", "n": 2, "vals": [_q(0), _q(1), _q(-1), QI, QJ, QK], "lead": 2, "rhs": "all"},
+    # real 3 x 3, entries {-1, 0, 1}, four right-hand sides
+    {"tier": "quick", "n": 3, "vals": [_q(v) for v in (-1, 0, 1)], "lead": 4, "rhs": [(1, 1, 1), (-1, -2, -2), (1, 0, 0), (1, -1, 2)]},
+    # real 3 x 3, entries {-1, 0, 1, 2}
+    {"tier": "thorough", "n": 3, "vals": [_q(v) for v in (-1, 0, 1, 2)], "lead": 4, "rhs": [(1, 1, 1), (-1, -2, -2), (1, 0, 0), (1, -1, 2)]},
+    # quaternion 3 x 3, entries {0, 1, i, j}, upper-left entry fixed to the alphabet by the block
+    {"tier": "thorough", "n": 3, "vals": [_q(0), _q(1), QI, QJ], "lead": 4, "rhs": [(1, 1, 1), (1, 0, 0)]},
+]
+
+
+def run_smallint(case, seed):
+    """Exhaustive block of small-integer systems: each must be solved to the tolerance within n cycles, with a truthful record."""
+    lib = load()
+    S = lib.solver.QGMRESSolver
+    alpha = SMALLINT_ALPHABETS[case["alpha"]]
+    n, vals, blk = alpha["n"], alpha["vals"], case["blk"]
+    k = len(vals)
+    if alpha["rhs"] == "all":
+        rhss = []
+        for idx in itertools.product(range(k), repeat=n):
+            if any(any(vals[i]) for i in idx):
+                bb = np.zeros((n, 1, 4))
+                for r, i in enumerate(idx):
+                    bb[r, 0] = vals[i]
+                rhss.append(("".join(map(str, idx)), bb))
+    else:
+        rhss = []
+        for bv in alpha["rhs"]:
+            bb = np.zeros((n, 1, 4))
+            bb[:, 0, 0] = bv
+            rhss.append((",".join(map(str, bv)), bb))
+    fails, states = [], []
+    systems = 0
+    solved_by = {}
+    tol = 1e-10
+    for rest in itertools.product(range(k), repeat=n * n - len(blk)):
+        idx = tuple(blk) + rest
+        A = np.zeros((n, n, 4))
+        for t, i in enumerate(idx):
+            A[t // n, t % n] = vals[i]
+        sv_ = O.svals(A)
+        if sv_[-1] <= 1e-9 * sv_[0]:
+            continue  # singular: outside the property's domain (integer entries: a nonsingular matrix has sigma_min far above this)
+        condA = float(sv_[0] / sv_[-1])
+        floor = 64 * O.U * condA * n * 4
+        nA = O.fro(A)
+        Aq = G.to_quat(A)
+        mname = "".join(map(str, idx))
+        for bi, (bname, b) in enumerate(rhss):
+            nb = O.fro(b)
+            bq = G.to_quat(b)
+            for prec in (("none", "left_lu") if bi == 0 else ("none",)):
+                systems += 1
+                tags = {"cls": "smallint", "n": n, "alphabet": case["alpha"], "prec": prec}
+                ok, res = quiet_call(S(tol=tol, preconditioner=prec).solve, Aq, bq)
+                label = f"A={mname} b={bname} prec={prec}"
+                if not ok:
+                    fails.append(fail("raised", f"{label}: {type(res).__name__}: {res}", **tags))
+                    continue
+                x = G.from_quat(res[0]).reshape(n, 1, 4)
+                info = res[1]
+                if not O.is_finite(x):
+                    fails.append(fail("x_finite", f"{label}: non-finite solution", **tags))
+                    continue
+                tr = O.fro(O.qmatmul(A, x) - b) / nb
+                rep = info.get("residual")
+                noise = 64 * O.U * (nA * O.fro(x) / nb + 1.0)
+                if rep is None or not np.isfinite(rep) or abs(rep - tr) > 1e-9 * max(tr, 1e-300) + 1e-13 + noise:
+                    fails.append(fail("info.residual_truthful", f"{label}: info.residual = {rep!r}, ||Ax-b||/||b|| = {tr!r}", **tags))
+                mult = max(1.0, condA) if prec == "left_lu" else 1.0
+                if info.get("converged") and tr > 10 * tol * mult + floor:
+                    fails.append(fail("converged=>small_residual", f"{label}: converged=True with true residual {tr:.3e}", **tags))
+                lim = max(tol, floor) * mult * 1.01 + floor
+                if tr > lim:
+                    fails.append(fail("solves_within_n_cycles", f"{label}: true residual {tr:.3e} > {lim:.3e} after {info.get('iterations')} cycles", **tags))
+                it = info.get("iterations")
+                if isinstance(it, (int, np.integer)) and it > n:
+                    fails.append(fail("at_most_n_cycles", f"{label}: {it} cycles for n = {n}", **tags))
+                solved_by[it] = solved_by.get(it, 0) + 1
+        states.append(digest(mname))
+    return {
+        "key": case["key"],
+        "fails": fails[:30],
+        "nontrivial": systems > 0,
+        "digest": digest(case["key"]),
+        "states": states,
+        "transitions": max(systems, 1),
+        "traces": 0 if fails else systems,
+        "path": "smallint",
+        "obs": [len(fails), sorted((str(a), b) for a, b in solved_by.items())],
+    }
 
 
 def build(case, seed):
@@ -443,6 +558,8 @@ def run_case(case, seed):
         return run_illcond(case, seed)
     if case["cls"] == "fault":
         return run_fault(case, seed)
+    if case["cls"] == "smallint":
+        return run_smallint(case, seed)
     lib = load()
     S = lib.solver.QGMRESSolver
     A, bs = build(case, seed)
